@@ -227,6 +227,11 @@ ADDED11 = {   # round 11
  "C17": "; a javascript_with_context case probed beyond the cache capacity",
  "C20": "; _node of legacy csv / fixed-length records",
 }
+ADDED12 = {   # session after round 11
+ "C02": "; positional predicates in Eval.tla's xpath table (StreamSelect!PosOK: n[1], n[2], n[last()], *[last()], *[2], a/b[last()]), family 'pos' (records <=4 / <=5 nodes with equally named siblings separated by text)",
+}
+for _p, _t in ADDED12.items():
+    CHECKS[_p]["technique"] += _t
 for _p, _t in ADDED11.items():
     CHECKS[_p]["technique"] += _t
 for _p, _t in ADDED10.items():
